@@ -35,6 +35,7 @@ CONSTANTS
   Prog,        \* Prog[i] = [single |-> BOOLEAN, ops |-> sequence of <<kind, key>>, end |-> "commit" | "abort"]
   ReadCalls,   \* set of <<"has", key>> / <<"len">> / <<"all">> calls a reader may issue
   MaxReads,    \* reads per reader
+  InitMap,     \* the registered set published before anybody starts (Keys -> tag)
   Broken       \* "none", or a deliberately wrong protocol variant used to show the invariants bite:
                \*   "loadfirst"   : the root is loaded before the lock is taken
                \*   "unlockfirst" : the lock is released before the new tree is stored
@@ -53,7 +54,7 @@ WIdle == [pc |-> "idle", work |-> Empty, base |-> 0, step |-> 0, res |-> <<>>]
 RIdle == [pc |-> "idle", seen |-> 0, last |-> 0, call |-> <<"len">>, n |-> 0]
 
 Init ==
-  /\ hist = <<Empty>> /\ lock = 0
+  /\ hist = <<InitMap>> /\ lock = 0
   /\ w = [i \in Writers |-> WIdle]
   /\ rd = [j \in Readers |-> RIdle]
   /\ op = [proc |-> "", id |-> 0, act |-> "init", arg |-> <<>>, res |-> <<>>]
@@ -66,6 +67,7 @@ ApplyOp(m, o, tag) ==
   CASE kind = "Handle" -> IF m[k] = 0 THEN [m |-> [m EXCEPT ![k] = tag], err |-> "ok"] ELSE [m |-> m, err |-> "exist"]
     [] kind = "Update" -> IF m[k] # 0 THEN [m |-> [m EXCEPT ![k] = tag], err |-> "ok"] ELSE [m |-> m, err |-> "notfound"]
     [] kind = "Delete" -> IF m[k] # 0 THEN [m |-> [m EXCEPT ![k] = 0], err |-> "ok"] ELSE [m |-> m, err |-> "notfound"]
+    [] kind = "Truncate" -> [m |-> Empty, err |-> "ok"]        \* Truncate of the method all keys live under
 
 Holding(i) == w[i].pc \in {"locked", "open", "prestore", "stored", "aborting"}
 
